@@ -92,7 +92,10 @@ func ruleSIB1(w *World, r *Report) {
 		r.Und("SIB-1", "anchor:DB.DeleteMetadata", "", "anchor lost")
 	} else {
 		dfn := w.SSAFunc(dm.Obj)
-		removes := findInstrs(dfn, func(in ssa.Instruction) bool { return isMethodCall(in, "RoaringBitmap/roaring", "Bitmap.Remove") })
+		var removes []ssa.Instruction
+		for _, f := range append([]*ssa.Function{dfn}, w.extractedHelpers(dfn)...) { // (the index clean-up may be a phase function of its own)
+			removes = append(removes, findInstrs(f, func(in ssa.Instruction) bool { return isMethodCall(in, "RoaringBitmap/roaring", "Bitmap.Remove") })...)
+		}
 		directed := 0
 		var dpos token.Pos
 		for _, rm := range removes {
